@@ -146,8 +146,12 @@ pub fn run(o: &Opts) {
         let file = format!("a.{ext}");
         std::fs::write(dir.join(&file), &text).unwrap();
         let bytes = text.as_bytes();
-        for _ in 0..(if o.thorough { 5 } else { 3 }) {
-          let (ptext, sel) = rng.pick(&ing.patterns).clone();
+        // literal patterns for one-line nodes whose OWN text has multi-byte characters (strings, comments,
+        // identifiers): their end column is a character column too
+        let wide_nodes: Vec<String> = nodes0.iter().filter(|n| n.is_named() && !n.text().is_ascii() && !n.text().contains('\n') && n.range().len() <= 80 && !n.text().contains('$') && n.children().count() <= 6)
+          .map(|n| n.text().to_string()).collect();
+        for round in 0..(if o.thorough { 6 } else { 4 }) {
+          let (ptext, sel) = if round == 0 && !wide_nodes.is_empty() { out.count("pattern:one-line-node-with-multi-byte-text"); (rng.pick(&wide_nodes).clone(), None) } else { rng.pick(&ing.patterns).clone() };
           if sel.is_some() || ptext.starts_with('-') {
             continue;
           }
